@@ -1893,7 +1893,7 @@ func isFreshObject(v ssa.Value) bool {
 // ruleGRDrmw: metadata read-modify-write operations keep read, journal write and write-back inside one
 // hold of the per-node metadata lock.
 func ruleGRDrmw(w *World, r *Report, lr *lckResult) {
-	r.Doc("GRD-rmw", "in every engine operation that reads a node's metadata and writes it back (VReinforce, VSetMetadata, …) the read, the journal write and the write-back all happen while the per-node metadata lock is held (else concurrent updates are lost)", 6)
+	r.Doc("GRD-rmw", "in every engine operation that reads a node's metadata and writes it back (VReinforce, VSetMetadata, …) the read, the journal write and the write-back all happen while the per-node metadata lock is held (else concurrent updates are lost)", 4)
 	gm, am, jw := w.FuncObj("pkg/core", "DB.GetMetadataForNode"), w.FuncObj("pkg/core", "DB.AddMetadata"), w.FuncObj("pkg/persistence", "LazyAOFWriter.Write")
 	const cls = "engine.Engine.metadataLocks[*]"
 	n := 0
@@ -2038,7 +2038,7 @@ func isEventChanOp(in ssa.Instruction) string {
 // ruleLCK7: subscriber channels are closed by Unsubscribe/Close and written by Emit; both sides must be serialised
 // by the bus lock, or a send can hit a channel that was closed a moment earlier (panic: send on closed channel).
 func ruleLCK7(w *World, r *Report, lr *lckResult) {
-	r.Doc("LCK-7", "every send on a subscriber channel happens while EventBus.mu is held (any mode) and every close of one while it is held exclusively: a channel can never be closed between the moment a sender picked it and the send", 3)
+	r.Doc("LCK-7", "every send on a subscriber channel happens while EventBus.mu is held (any mode) and every close of one while it is held exclusively: a channel can never be closed between the moment a sender picked it and the send", 2)
 	const cls = "engine.EventBus.mu"
 	n := 0
 	per := map[string]int{}
